@@ -256,6 +256,9 @@ func OracleC04(h *History, out *sim.Outcome) *simrt.Violation {
 		if q.Method != "Sign" && !isAttMethod(q.Method) {
 			return env.Viol("C04/unexpected-signing-method", "signer saw %s for key %d", q.Method, q.KeyIndex)
 		}
+		if q.Method == "Sign" && q.run < 0 {
+			return env.Viol("C04/undecodable-plain-request", "key %d was asked to sign root %x which is not the signing root of any run's data with a committee index of the universe", q.KeyIndex, q.Data)
+		}
 		if q.run < 0 {
 			return env.Viol("C04/signed-data-differs-from-provider", "key %d asked to sign slot %d block root %x which no run was given", q.KeyIndex, q.Slot, q.BlockRoot)
 		}
